@@ -361,7 +361,18 @@ func (b *builder) build(v ssa.Value) *Expr {
 		return &Expr{Op: "assert", Name: typeShort(x.AssertedType), Args: []*Expr{b.expr(x.X)}}
 	case *ssa.MakeClosure:
 		fn, _ := x.Fn.(*ssa.Function)
-		return &Expr{Op: "closure", Name: FuncName(fn), Callee: fn}
+		ce := &Expr{Op: "closure", Name: FuncName(fn), Callee: fn}
+		// what the closure captured, where that is a variable assigned once (typically a parameter or a value computed
+		// just before): it travels with the closure when it is handed to a helper
+		if fn != nil && len(fn.FreeVars) == len(x.Bindings) {
+			for i, bd := range x.Bindings {
+				if v := singleAssignment(bd); v != nil && !b.inpro[v] {
+					ce.Fields = append(ce.Fields, fn.FreeVars[i].Name())
+					ce.Args = append(ce.Args, b.expr(v))
+				}
+			}
+		}
+		return ce
 	case *ssa.MakeSlice:
 		return &Expr{Op: "makeslice", Name: typeShort(x.Type()), Args: []*Expr{b.expr(x.Len)}}
 	case *ssa.MakeMap:
@@ -1372,6 +1383,27 @@ func (w *World) expand(e *Expr, depth int, budget *int, keep func(*ssa.Function)
 		return e
 	}
 	*budget--
+	if e.Op == "call" && e.Callee == nil && e.Name == "dyn" && len(e.Args) > 0 && e.Args[0].Op == "closure" && e.Args[0].Callee != nil && depth > 0 {
+		// a call of a closure that was handed in as an argument (known after instantiation): its body, with the
+		// call's arguments for its parameters; captured variables stay symbolic
+		ne := *e
+		ne.str = ""
+		cl := e.Args[0]
+		ne.Name = cl.Name
+		ne.Callee = cl.Callee
+		ne.Args = e.Args[1:]
+		if len(ne.Callee.Blocks) > 0 && w.inSet[ne.Callee] {
+			if in := w.Inline(&ne); in != nil && !opaque(in) {
+				free := map[string]*Expr{}
+				for i, f := range cl.Fields {
+					if i < len(cl.Args) {
+						free["free:"+f] = cl.Args[i]
+					}
+				}
+				return w.expand(Subst(in, free), depth-1, budget, keep)
+			}
+		}
+	}
 	if e.Op == "call" && e.Callee != nil && depth > 0 && keep != nil && keep(e.Callee) {
 		// a vocabulary call stays; its arguments are expanded
 		ne := *e
